@@ -195,6 +195,31 @@ def life_session(bindir, rng, tag, retry, nconn, last, quit_key):
         rd.cleanup()
 
 
+def flood_session(bindir, tag, nkeys):
+    """`nkeys` arrow keys and then q, written to the terminal in ONE burst (a paste, a key-repeat backlog), then silence.
+    If the client has not ended after 2.5 s one more (meaningless) key is sent: `delayed` = it ended only then."""
+    srv = apps.FeedServer([{"segments": [], "interactive": True}])
+    srv.start()
+    rd = apps.Radar(bindir, srv.port, ["--lat", str(RXF[0]), "--long", str(RXF[1])])
+    try:
+        rd.wait_frames(3, 6)
+        os.write(rd.fd, apps.KEYS["Left"] * nkeys + apps.KEYS["q"])
+        status = rd.wait_exit(2.5)
+        delayed = 0
+        if status is None:
+            rd.send(apps.KEYS["x"])
+            status = rd.wait_exit(3)
+            delayed = 1 if status is not None else 0
+        end = apps.session_end_event(rd, tag, 1, status, 1 if status is None else 0)
+        end["delayed"] = delayed
+        end["burst_bytes"] = 3 * nkeys + 1
+        return ([{"ev": "session_start", "tag": tag, "rx": {"lat": round(RXF[0] * 1e6), "lon": round(RXF[1] * 1e6)}, "scale9": 120000000,
+                  "retry": 0, "quit_sent": 1, "filter_time": 120}] + apps.hook_events(rd) + [end])
+    finally:
+        srv.stop()
+        rd.cleanup()
+
+
 def judge_sessions(prop, rep, events, name):
     """the lifecycle of every recorded session against RadarSession (Trace_Session)"""
     verdicts, st, tr = core.validate_events("Trace_Session", events, name, shards=8, boundary=lambda e: e["ev"] == "session_start")
@@ -364,6 +389,10 @@ def run(prop, tier, seed, rep):
     for qk in ("q", "CtrlC"):
         results.append(retry_wait_session(bindir, "retrywait-" + qk, qk))
         jobs.append({"tag": "retrywait-" + qk})
+    # a burst of terminal input below and above the size the terminal library reads at a time (1024 bytes), ending in q
+    for nkeys in (300, 500):
+        results.append(flood_session(bindir, f"flood-{3 * nkeys + 1}", nkeys))
+        jobs.append({"tag": f"flood-{3 * nkeys + 1}"})
     # the client's life around its connections: judged by Trace_Session only (a client that ends by itself when its feed
     # goes away is not a session Trace_UI knows)
     lifecycle_model(prop, tier, rep)
